@@ -578,6 +578,13 @@ func genJob(r *RNG, paths []PathSpec, small bool, salt ...string) *Recipe {
 		}
 		rec.Ops = append(rec.Ops, Op{K: "add", Node: g.decl()})
 	}
+	if r.Chance(0.4) {
+		// var E<k> = <Empty()|Null()|Add()|Op("")>.Add(x).Op("+").Add(y): what is chained onto such a
+		// constructor's result belongs to this job's statement alone
+		for i := r.Range(1, 2); i > 0; i-- {
+			rec.Ops = append(rec.Ops, Op{K: "add", Node: &Node{K: "var", S: fmt.Sprintf("E%d", r.Intn(1000)), N: []*Node{{K: "ctorchain", I: r.Intn(4), N: []*Node{g.leaf(-1), g.leaf(-1)}}}}})
+		}
+	}
 	rec.Ops = append(rec.Ops, Op{K: "render"})
 	if r.Chance(0.25) {
 		rec.Ops = append(rec.Ops, Op{K: "save", F: &FSPlan{Target: "fresh"}})
